@@ -5,7 +5,8 @@
 //! `dashu_verif` hook, the storage invariants documented on `Repr`.
 
 use crate::bridge::{i2n, Nat};
-use dashu_base::{BitTest, Sign, SquareRoot, UnsignedAbs};
+use dashu_base::{CubicRootRem, DivRem, DivRemEuclid, ExtendedGcd, Gcd, Sign, SquareRoot, SquareRootRem, UnsignedAbs};
+use dashu_int::fast_div::ConstDivisor;
 use dashu_int::{IBig, UBig, Word};
 use num_bigint::{BigInt, BigUint, Sign as NSign};
 use num_integer::Integer;
@@ -13,7 +14,7 @@ use num_traits::{One, Signed, Zero};
 use serde::{Deserialize, Serialize};
 
 pub const POOL: usize = 4;
-pub const NKINDS: u8 = 25;
+pub const NKINDS: u8 = 27;
 /// values are kept below this many words (decided from the model)
 pub const MAXW: u64 = 300;
 
@@ -489,6 +490,208 @@ pub fn run(init: &[(bool, Nat)], ops: &[Op]) -> Result<Report, String> {
                     }
                 }
                 model[d] = m;
+            }
+            24 => {
+                // modular ring over |b|: ConstDivisor owns a boxed word slice, Reduced values own buffers
+                let m = model[b].magnitude().clone();
+                if m.is_zero() {
+                    skipped = true;
+                } else {
+                    let mm = BigInt::from(m.clone());
+                    let ring = ConstDivisor::new((&pool[b]).unsigned_abs());
+                    let r0 = model[a].mod_floor(&mm);
+                    let want: BigInt;
+                    let got: UBig;
+                    match form % 7 {
+                        0 => {
+                            got = ring.reduce(pool[a].clone()).residue();
+                            want = r0;
+                        }
+                        1 => {
+                            let x = ring.reduce(pool[a].clone());
+                            got = (&x * &x).residue();
+                            want = (&r0 * &r0).mod_floor(&mm);
+                        }
+                        2 => {
+                            let x = ring.reduce((&pool[a]).unsigned_abs());
+                            let ra = BigInt::from(model[a].magnitude().clone()).mod_floor(&mm);
+                            let e = (n % 70) as u32;
+                            got = x.pow(&UBig::from(e)).residue();
+                            want = ra.modpow(&BigInt::from(e), &mm);
+                        }
+                        3 => {
+                            let x = ring.reduce(pool[a].clone());
+                            let y = ring.reduce(pool[d].clone());
+                            let mut z = x.clone();
+                            z += &y;
+                            z -= x;
+                            z *= y.clone();
+                            got = z.residue();
+                            let rd = model[d].mod_floor(&mm);
+                            want = (&rd * &rd).mod_floor(&mm);
+                        }
+                        4 => {
+                            let x = ring.reduce(pool[a].clone());
+                            match x.inv() {
+                                Some(y) => {
+                                    got = (y * ring.reduce(pool[a].clone())).residue();
+                                    want = BigInt::one().mod_floor(&mm);
+                                }
+                                None => {
+                                    if r0.gcd(&mm).is_one() {
+                                        return Err(format!("step {step}: Reduced::inv = None for an invertible element"));
+                                    }
+                                    got = ring.reduce(pool[a].clone()).residue();
+                                    want = r0;
+                                }
+                            }
+                        }
+                        5 => {
+                            // a second ring with the same modulus, built from a by-value modulus
+                            let ring2 = ConstDivisor::new(pool[b].clone().unsigned_abs());
+                            let x = ring2.reduce(pool[a].clone());
+                            got = (-x).residue();
+                            want = (-&r0).mod_floor(&mm);
+                        }
+                        _ => {
+                            // plain division helpers of the ConstDivisor
+                            let q = &pool[a] / &ring;
+                            let r = &pool[a] % &ring;
+                            let (tq, tr) = model[a].div_rem(&mm);
+                            if i2n(&q) != tq {
+                                return Err(format!("step {step}: IBig / ConstDivisor gives {} but the model says {}", crate::bridge::show_i(&i2n(&q)), crate::bridge::show_i(&tq)));
+                            }
+                            got = r.unsigned_abs();
+                            want = tr.abs();
+                        }
+                    }
+                    drop(ring);
+                    let g = BigInt::from(crate::bridge::u2n(&got));
+                    if g != want {
+                        return Err(format!("step {step} (kind 24 form {form}): ring result {} but the model says {}", crate::bridge::show_i(&g), crate::bridge::show_i(&want)));
+                    }
+                    pool[d] = IBig::from(got);
+                    model[d] = want;
+                }
+            }
+            25 => {
+                // gcd / division / roots in by-value and by-reference forms (scratch memory, buffer reuse)
+                let (ma, mb) = (model[a].clone(), model[b].clone());
+                match form % 8 {
+                    0 => {
+                        if ma.is_zero() && mb.is_zero() {
+                            skipped = true;
+                        } else {
+                            let g = if form & 8 == 0 { (&pool[a]).gcd(&pool[b]) } else { pool[a].clone().gcd(pool[b].clone()) };
+                            pool[d] = IBig::from(g);
+                            model[d] = ma.gcd(&mb);
+                        }
+                    }
+                    1 => {
+                        if ma.is_zero() && mb.is_zero() {
+                            skipped = true;
+                        } else {
+                            let (g, s, t) = match (form >> 3) % 4 {
+                                0 => (&pool[a]).gcd_ext(&pool[b]),
+                                1 => pool[a].clone().gcd_ext(pool[b].clone()),
+                                2 => (&pool[a]).gcd_ext(pool[b].clone()),
+                                _ => pool[a].clone().gcd_ext(&pool[b]),
+                            };
+                            let lhs = i2n(&s) * &ma + i2n(&t) * &mb;
+                            let g = BigInt::from(crate::bridge::u2n(&g));
+                            if lhs != g || g != ma.gcd(&mb) {
+                                return Err(format!("step {step}: gcd_ext identity broken: s*a + t*b = {} with g = {}", crate::bridge::show_i(&lhs), crate::bridge::show_i(&g)));
+                            }
+                            pool[d] = s;
+                            model[d] = i2n(&pool[d]);
+                        }
+                    }
+                    2 => {
+                        if mb.is_zero() {
+                            skipped = true;
+                        } else {
+                            let (q, r) = match (form >> 3) % 4 {
+                                0 => (&pool[a]).div_rem(&pool[b]),
+                                1 => pool[a].clone().div_rem(pool[b].clone()),
+                                2 => (&pool[a]).div_rem(pool[b].clone()),
+                                _ => pool[a].clone().div_rem(&pool[b]),
+                            };
+                            let (tq, tr) = ma.div_rem(&mb);
+                            if i2n(&r) != tr {
+                                return Err(format!("step {step}: div_rem remainder {} but the model says {}", crate::bridge::show_i(&i2n(&r)), crate::bridge::show_i(&tr)));
+                            }
+                            pool[d] = q;
+                            model[d] = tq;
+                        }
+                    }
+                    3 => {
+                        if mb.is_zero() {
+                            skipped = true;
+                        } else {
+                            let (q, r) = if form & 8 == 0 { (&pool[a]).div_rem_euclid(&pool[b]) } else { pool[a].clone().div_rem_euclid(pool[b].clone()) };
+                            let tr = ma.mod_floor(&mb.abs());
+                            let tq = (&ma - &tr) / &mb;
+                            if BigInt::from(crate::bridge::u2n(&r)) != tr {
+                                return Err(format!("step {step}: div_rem_euclid remainder wrong"));
+                            }
+                            pool[d] = q;
+                            model[d] = tq;
+                        }
+                    }
+                    4 => {
+                        let u = (&pool[a]).unsigned_abs();
+                        let (s, r) = u.sqrt_rem();
+                        let ts = ma.magnitude().sqrt();
+                        let tr = ma.magnitude() - &ts * &ts;
+                        if crate::bridge::u2n(&s) != ts {
+                            return Err(format!("step {step}: sqrt_rem root wrong"));
+                        }
+                        pool[d] = IBig::from(r);
+                        model[d] = BigInt::from(tr);
+                    }
+                    5 => {
+                        let k = 3 + n % 4;
+                        let u = (&pool[a]).unsigned_abs();
+                        let (s, r) = if k == 3 { u.cbrt_rem() } else { let s = u.nth_root(k); let r = &u - s.pow(k); (s, r) };
+                        let ts = ma.magnitude().nth_root(k as u32);
+                        let tr = ma.magnitude() - num_traits::Pow::pow(&ts, k as u32);
+                        if crate::bridge::u2n(&s) != ts {
+                            return Err(format!("step {step}: root of order {k} wrong"));
+                        }
+                        pool[d] = IBig::from(r);
+                        model[d] = BigInt::from(tr);
+                    }
+                    6 => {
+                        // in-place quotient / remainder: the dividend's buffer is reused
+                        if mb.is_zero() {
+                            skipped = true;
+                        } else {
+                            let (tq, tr) = ma.div_rem(&mb);
+                            let rhs = pool[b].clone();
+                            if form & 8 == 0 {
+                                pool[a] /= rhs;
+                                model[a] = tq;
+                            } else {
+                                pool[a] %= &rhs;
+                                model[a] = tr;
+                            }
+                        }
+                    }
+                    _ => {
+                        // UBig forms of the same (unsigned subtraction / division by value)
+                        let (ua, ub) = ((&pool[a]).unsigned_abs(), (&pool[b]).unsigned_abs());
+                        let (xa, xb) = (ma.magnitude().clone(), mb.magnitude().clone());
+                        if xb.is_zero() || xa < xb {
+                            skipped = true;
+                        } else {
+                            let diff = ua.clone() - &ub;
+                            let quot = ua / ub;
+                            let r = diff + quot;
+                            pool[d] = IBig::from(r);
+                            model[d] = BigInt::from((&xa - &xb) + (&xa / &xb));
+                        }
+                    }
+                }
             }
             _ => {
                 // read-only use of a value built by from_static_words (never mutated, never dropped)
